@@ -508,7 +508,7 @@ func TestPropBitFlip(t *testing.T) {
 func TestPropLargeTruncation(t *testing.T) {
 	rapid.Check(t, func(rt *rapid.T) {
 		c := FaultCase{
-			File:     FileSpec{Format: rapid.SampledFrom([]string{"fasta", "fastq", "csv", "fasta", "fastq", "csv", "genbank", "embl"}).Draw(rt, "format"), NRec: rapid.IntRange(9000, 20000).Draw(rt, "nrec"), SeqLen: rapid.IntRange(100, 150).Draw(rt, "seqlen"), Salt: rapid.IntRange(0, 1000).Draw(rt, "salt")},
+			File:     FileSpec{Format: rapid.SampledFrom([]string{"csv", "fasta", "fastq", "csv", "genbank", "embl", "fasta", "fastq"}).Draw(rt, "format"), NRec: rapid.IntRange(9000, 20000).Draw(rt, "nrec"), SeqLen: rapid.IntRange(100, 150).Draw(rt, "seqlen"), Salt: rapid.IntRange(0, 1000).Draw(rt, "salt")},
 			Codec:    rapid.SampledFrom([]string{"gzip", "gzip", "zstd", "bzip2", "xz", "gzip2"}).Draw(rt, "codec"),
 			Command:  rapid.SampledFrom([]string{"obiconvert", "obiconvert", "obicount"}).Draw(rt, "cmd"),
 			FlipByte: -1,
